@@ -48,7 +48,7 @@ def oracle(case, res, docopts):
             if p0[0] != 'ok':
                 bad.append('documented mapping yields a desired state but plan failed with %r' % (p0[1],))
             else:
-                sbroot = '/nonexistent-sandbox'
+                sbroot = '/@S@'
                 class _S: pass
                 def norm(path):
                     p = path.replace(R.SB, sbroot)
@@ -122,7 +122,7 @@ def run(ctx):
         for c in failing:
             ctx.violation('model and implementation disagree on the rendered desired state', c, no_input=True)
         return
-    n = 220 if quick else 3000
+    n = 300 if quick else 4000
     jobs = []
     for i in range(n):
         case = R.gen_case(rng, docopts)
